@@ -13,8 +13,8 @@
     What is abstract (inputs of the model, produced by trusted library code in the harness):
       - [pmt] = mime.ParseMediaType, an uninterpreted function (media type, parameter names, error);
       - the URL: [rq_path] = r.URL.Path, [rq_query] = the keys of r.URL.Query() (net/url);
-      - the body: [BNone] when jsoniter finds no syntactically valid first JSON value (empty body,
-        syntax error), otherwise the tree of that first value;
+      - the body: [BNone] when it is not exactly one JSON value, otherwise its tree with the members of
+        every object in textual order, repeated names included (JsonApiBytes.v reads the bytes);
       - the application: per resource type the presence of Get/Patch/Create/Delete and their
         outcomes as functions, attribute and relationship resolvers as functions of the resource
         value (a number standing for the application's T);
@@ -129,49 +129,66 @@ Inductive json :=
 (** [BJson j tail]: the first JSON value of the body and the bytes that follow it *)
 Inductive body := BNone | BJson (j : json) (tail : bytes).
 
-(** struct field lookup: jsoniter (ConfigDefault) matches member names ASCII-case-insensitively;
-    for a repeated member the last occurrence decides (bodies with repeated members are not
-    generated: for nested structs jsoniter merges instead) *)
+(** *** jsoniter's typed decoding, on trees whose objects keep their members in textual order,
+    repeated names included.  Struct fields are matched ASCII-case-insensitively; the members of an
+    object are decoded one after the other INTO the value being built, so for a repeated name:
+      - a string field: the last occurrence decides ([null] stores "");
+      - a json.RawMessage field: the last occurrence decides;
+      - a struct field ("data" of a resource document): the occurrences are merged field by field,
+        [null] changes nothing;
+      - a map field ("attributes", "relationships"): the occurrences are merged key by key (a later
+        value replaces an earlier one, each value is decoded afresh), [null] empties the map;
+      - a slice field ("data" of the add / remove documents): element i of a later array is decoded
+        into the slot element i of the earlier array left in the backing array (while the capacity -
+        1, 2, 4, ... - lasts), so fields the later element does not mention keep the earlier value;
+        [null] and [] drop the backing array.
+    (measured against json-iterator v1.1.12 / reflect2 v1.0.2; see checks/C19.design.md) *)
+Definition is_field (name k : bytes) : bool := bytes_eqb (lower k) name.
+
+(** the last member matching [name] (a json.RawMessage field) *)
 Fixpoint get_field (name : bytes) (f : list (bytes * json)) : option json :=
   match f with
   | [] => None
   | (k, v) :: r =>
       match get_field name r with
       | Some v' => Some v'
-      | None => if bytes_eqb (lower k) name then Some v else None
+      | None => if is_field name k then Some v else None
       end
   end.
 
-(** a Go [string] field: null leaves "", a string sets it, anything else is an error *)
+(** a Go [string] field: null stores "", a string sets it, anything else is an error *)
 Definition dec_string (j : json) : option bytes :=
   match j with
   | JStr s => Some s
   | JNull => Some []
   | _ => None
   end.
-Definition field_string (name : bytes) (f : list (bytes * json)) : option bytes :=
-  match get_field name f with
-  | None => Some []
-  | Some v => dec_string v
-  end.
 
 Record rid := { r_type : bytes; r_id : bytes }.
 Definition rid_eqb (x y : rid) : bool := bytes_eqb (r_type x) (r_type y) && bytes_eqb (r_id x) (r_id y).
+Definition zero_rid : rid := {| r_type := []; r_id := [] |}.
 
 (** values of the Go [any] that holds resource linkage: nil, ResourceId, []ResourceId *)
 Inductive linkage := LNull | LOne (r : rid) | LMany (l : list rid).
 
-(** struct ResourceId *)
-Definition dec_rid (j : json) : option rid :=
+(** struct ResourceId, decoded into the value [cur] *)
+Fixpoint fold_rid (f : list (bytes * json)) (cur : rid) : option rid :=
+  match f with
+  | [] => Some cur
+  | (k, v) :: r =>
+      if is_field s_type k then
+        match dec_string v with Some s => fold_rid r {| r_type := s; r_id := r_id cur |} | None => None end
+      else if is_field s_id k then
+        match dec_string v with Some s => fold_rid r {| r_type := r_type cur; r_id := s |} | None => None end
+      else fold_rid r cur
+  end.
+Definition dec_rid_into (cur : rid) (j : json) : option rid :=
   match j with
-  | JNull => Some {| r_type := []; r_id := [] |}
-  | JObj f =>
-      match field_string s_type f, field_string s_id f with
-      | Some t, Some i => Some {| r_type := t; r_id := i |}
-      | _, _ => None
-      end
+  | JNull => Some cur
+  | JObj f => fold_rid f cur
   | _ => None
   end.
+Definition dec_rid (j : json) : option rid := dec_rid_into zero_rid j.
 
 (** types.go:194-226 RelationshipData.UnmarshalJSON.  [tmp.Data] is the raw "data" member;
     [tmp.Data[0] == '['] is "the value is an array" (the raw bytes start at the value). *)
@@ -194,17 +211,46 @@ Definition dec_relationship_data (j : json) : option linkage :=
   | _ => None
   end.
 
-(** PostRelationshipRequest / DeleteRelationshipRequest: Data []ResourceId *)
+(** PostRelationshipRequest / DeleteRelationshipRequest: Data []ResourceId.  [back]: the backing
+    array (its length is the capacity); reflect2's UnsafeGrow doubles the capacity (0 -> 1) *)
+Fixpoint set_slot {A} (n : nat) (x : A) (l : list A) : list A :=
+  match l, n with
+  | [], _ => []
+  | _ :: r, O => x :: r
+  | y :: r, S n' => y :: set_slot n' x r
+  end.
+Fixpoint fill_slice (elems : list json) (i : nat) (back : list rid) : option (list rid) :=
+  match elems with
+  | [] => Some back
+  | e :: rest =>
+      let back1 := if Nat.ltb i (List.length back) then back
+                   else back ++ repeat zero_rid (match List.length back with O => 1 | c => c end) in
+      match dec_rid_into (nth i back1 zero_rid) e with
+      | None => None
+      | Some r => fill_slice rest (S i) (set_slot i r back1)
+      end
+  end.
+(** the members of the document, in order; state: backing array and length *)
+Fixpoint fold_members (f : list (bytes * json)) (back : list rid) (len : nat) : option (list rid) :=
+  match f with
+  | [] => Some (firstn len back)
+  | (k, v) :: r =>
+      if is_field s_data k then
+        match v with
+        | JNull => fold_members r [] 0
+        | JArr [] => fold_members r [] 0
+        | JArr l => match fill_slice l 0 back with
+                    | Some back' => fold_members r back' (List.length l)
+                    | None => None
+                    end
+        | _ => None
+        end
+      else fold_members r back len
+  end.
 Definition dec_members (j : json) : option (list rid) :=
   match j with
   | JNull => Some []
-  | JObj f =>
-      match get_field s_data f with
-      | None => Some []
-      | Some JNull => Some []
-      | Some (JArr l) => map_opt dec_rid l
-      | Some _ => None
-      end
+  | JObj f => fold_members f [] 0
   | _ => None
   end.
 
@@ -217,48 +263,87 @@ Record resource_request := {
 }.
 Definition zero_request : resource_request := {| pd_type := []; pd_id := []; pd_attrs := []; pd_rels := [] |}.
 
-Definition dec_attributes (o : option json) : option (list bytes) :=
-  match o with
-  | None => Some []
-  | Some JNull => Some []
-  | Some (JObj f) => Some (map fst f)
-  | Some _ => None
+Definition add_key (k : bytes) (l : list bytes) : list bytes := if existsb (bytes_eqb k) l then l else l ++ [k].
+Fixpoint set_assoc {A} (k : bytes) (v : A) (l : list (bytes * A)) : list (bytes * A) :=
+  match l with
+  | [] => [(k, v)]
+  | (k', v') :: r => if bytes_eqb k k' then (k, v) :: r else (k', v') :: set_assoc k v r
   end.
 
-Definition dec_relationships (o : option json) : option (list (bytes * linkage)) :=
-  match o with
-  | None => Some []
-  | Some JNull => Some []
-  | Some (JObj f) =>
-      map_opt (fun kv => match dec_relationship_data (snd kv) with
-                         | Some l => Some (fst kv, l)
-                         | None => None
-                         end) f
-  | Some _ => None
-  end.
-
-Definition dec_resource_data (with_id : bool) (j : json) : option resource_request :=
+(** map[string]json.RawMessage decoded into the map [cur] *)
+Definition dec_attributes_into (cur : list bytes) (j : json) : option (list bytes) :=
   match j with
-  | JNull => Some zero_request
-  | JObj f =>
-      match field_string s_type f,
-            (if with_id then field_string s_id f else Some []),
-            dec_attributes (get_field s_attributes f),
-            dec_relationships (get_field s_relationships f) with
-      | Some t, Some i, Some a, Some r => Some {| pd_type := t; pd_id := i; pd_attrs := a; pd_rels := r |}
-      | _, _, _, _ => None
-      end
+  | JNull => Some []
+  | JObj f => Some (fold_left (fun m kv => add_key (fst kv) m) f cur)
   | _ => None
+  end.
+
+(** map[string]RelationshipData decoded into the map [cur] *)
+Fixpoint fold_relationships (f : list (bytes * json)) (cur : list (bytes * linkage)) : option (list (bytes * linkage)) :=
+  match f with
+  | [] => Some cur
+  | (k, v) :: r =>
+      match dec_relationship_data v with
+      | Some l => fold_relationships r (set_assoc k l cur)
+      | None => None
+      end
+  end.
+Definition dec_relationships_into (cur : list (bytes * linkage)) (j : json) : option (list (bytes * linkage)) :=
+  match j with
+  | JNull => Some []
+  | JObj f => fold_relationships f cur
+  | _ => None
+  end.
+
+(** the data struct, decoded into [cur] *)
+Fixpoint fold_resource_data (with_id : bool) (f : list (bytes * json)) (cur : resource_request) : option resource_request :=
+  match f with
+  | [] => Some cur
+  | (k, v) :: r =>
+      if is_field s_type k then
+        match dec_string v with
+        | Some s => fold_resource_data with_id r {| pd_type := s; pd_id := pd_id cur; pd_attrs := pd_attrs cur; pd_rels := pd_rels cur |}
+        | None => None
+        end
+      else if with_id && is_field s_id k then
+        match dec_string v with
+        | Some s => fold_resource_data with_id r {| pd_type := pd_type cur; pd_id := s; pd_attrs := pd_attrs cur; pd_rels := pd_rels cur |}
+        | None => None
+        end
+      else if is_field s_attributes k then
+        match dec_attributes_into (pd_attrs cur) v with
+        | Some a => fold_resource_data with_id r {| pd_type := pd_type cur; pd_id := pd_id cur; pd_attrs := a; pd_rels := pd_rels cur |}
+        | None => None
+        end
+      else if is_field s_relationships k then
+        match dec_relationships_into (pd_rels cur) v with
+        | Some rl => fold_resource_data with_id r {| pd_type := pd_type cur; pd_id := pd_id cur; pd_attrs := pd_attrs cur; pd_rels := rl |}
+        | None => None
+        end
+      else fold_resource_data with_id r cur
+  end.
+
+(** the document: every "data" member is decoded into the same struct *)
+Fixpoint fold_document (with_id : bool) (f : list (bytes * json)) (cur : resource_request) : option resource_request :=
+  match f with
+  | [] => Some cur
+  | (k, v) :: r =>
+      if is_field s_data k then
+        match v with
+        | JNull => fold_document with_id r cur
+        | JObj g => match fold_resource_data with_id g cur with
+                    | Some cur' => fold_document with_id r cur'
+                    | None => None
+                    end
+        | _ => None
+        end
+      else fold_document with_id r cur
   end.
 
 Definition dec_resource_request (with_id : bool) (j : json) : option resource_request :=
   match j with
   | JNull => Some zero_request
-  | JObj f =>
-      match get_field s_data f with
-      | None => Some zero_request
-      | Some d => dec_resource_data with_id d
-      end
+  | JObj f => fold_document with_id f zero_request
   | _ => None
   end.
 
@@ -272,7 +357,9 @@ Definition decode_body {A} (dec : json -> option A) (bd : body) : option A :=
   end.
 
 (** ** The application: schema, handlers, resolvers *)
-Record err := { e_status : bytes }.                    (* types.Error: only Status matters here *)
+(** types.Error: the Status member, and whether the error object serialises (its Meta is a
+    map[string]any of the application's; Links is a map of strings and always does) *)
+Record err := { e_status : bytes; e_meta_ok : bool }.
 
 (** what Get / Patch / Create hand back: a resource value, a nil resource, or an error *)
 Inductive houtcome := HVal (v : N) | HNil | HErr (e : err).
@@ -347,7 +434,7 @@ Record response := {
 Definition http_status_bytes (n : Z) : bytes :=
   let d := fun k => (48 + Z.to_N ((n / k) mod 10))%N in [d 100%Z; d 10%Z; d 1%Z].
 (** errorForHTTPStatus *)
-Definition error_for (status : Z) : err := {| e_status := http_status_bytes status |}.
+Definition error_for (status : Z) : err := {| e_status := http_status_bytes status; e_meta_ok := true |}.
 
 Definition resp_errors (es : list err) (c : option call) : response :=
   {| rs_data := None; rs_errors := es; rs_links := []; rs_status := 0; rs_call := c |}.
@@ -835,8 +922,8 @@ Section Model.
     Definition write (status : Z) (bd : wbody) (c : option call) : outcome :=
       if (status <? 100)%Z || (999 <? status)%Z then Panic else Resp status media_type bd c.
 
-    Definition serve_http (rq : request) : outcome :=
-      match execute_request rq with
+    Definition finish (o : option response) : outcome :=
+      match o with
       | None => Panic
       | Some resp =>
           let status := if (rs_status resp =? 0)%Z then 200%Z else rs_status resp in
@@ -844,7 +931,7 @@ Section Model.
                         | [] => status
                         | _ => first_status (rs_errors resp) 500
                         end in
-          if data_marshals (rs_data resp) then
+          if data_marshals (rs_data resp) && forallb e_meta_ok (rs_errors resp) then
             write status (WDoc (Some version_1_1) (wdata_of (rs_data resp)) (map e_status (rs_errors resp)) (rs_links resp))
                   (rs_call resp)
           else
@@ -853,6 +940,8 @@ Section Model.
                        else WBareError (e_status new_err))
                   (rs_call resp)
       end.
+
+    Definition serve_http (rq : request) : outcome := finish (execute_request rq).
   End WithSchema.
 End Model.
 
